@@ -47,7 +47,13 @@ var Kinds = []string{
 	"cmd-line",           // command lines / call targets / deps / dir of a compiled task
 	"compile-error",      // error text of FastCompiledTask / CompiledTask
 	"dry-run",            // output and error of the dry run
+	"run-output",         // output of really executed tasks whose commands only print their environment (dotenv shape)
+	// the task listing (--list-all) per sorter, as text and as JSON (--json)
+	"list-default-text", "list-default-json", "list-alphanumeric-text", "list-alphanumeric-json", "list-none-text", "list-none-json",
 }
+
+// Sorters are the task sorters of --sort.
+var Sorters = []string{"default", "alphanumeric", "none"}
 
 // Obs is the set of distinct values of one kind seen for one tree.
 type Obs struct {
@@ -76,6 +82,7 @@ type TreeResult struct {
 	Perms  []PermRun       `json:"perms"`
 	Inconc []string        `json:"inconc"`
 	Sample string          `json:"sample,omitempty"` // one full dump, for the evidence
+	Done   int             `json:"done"`             // loads completed (also in the progress file)
 }
 
 // Out is the output of one worker process.
